@@ -1,6 +1,8 @@
 """C03 - tasks inherit a context snapshot and never observe each other's scopes."""
-from harness.legs import cfg_text, leg_m, leg_mutant, leg_r
-from props.scopes_common import ScopesDriver
+import random
+
+from harness.legs import cfg_text, leg_m, leg_mutant, leg_r, leg_t_gen
+from props.scopes_common import TRACE_KW, ScopesDriver, gen_trace
 
 SPEC = "Scopes"
 MANIFEST = dict(
@@ -33,6 +35,11 @@ def run(rep, work, tier, seed):
                    cfg_text(dict(small, Bug="leak_group"), spec="Spec", invariants=INVS, properties=PROPS),
                    ["LexicalLookup", "Isolation", "TypeOK", "ScopeIdsFresh"]) if False else None
     leg_r(rep, work, SPEC, f"conf_{tier}", cfg_text(conf, invariants=INVS), lambda: ScopesDriver(("A", "B")))
+    # leg T: random programs beyond the exhaustive bound (depth 6, ~28 operations, 4 task(s)) validated by a trace
+    # module generated from Scopes.tla
+    rnd = random.Random(seed * 13 + 4)
+    traces = [gen_trace(rnd, ntasks=4) for _ in range(150 if tier == "quick" else 2000)]
+    leg_t_gen(rep, work, SPEC, f"trace_{tier}", traces, **TRACE_KW)
     rep.assumptions += [
         "interleavings are explored at gate granularity (between operations of the tasks' programs); handle-level "
         "interleavings inside one library call do not exist for these synchronous context operations",
